@@ -12,6 +12,7 @@ import (
 )
 
 const preBase = `
+(set-logic ALL)
 (define-fun MAXI64 () Int 9223372036854775807)
 (define-fun MINI64 () Int (- 9223372036854775808))
 (define-fun wrap64 ((x Int)) Int (ite (> x MAXI64) (- x 18446744073709551616) (ite (< x MINI64) (+ x 18446744073709551616) x)))
